@@ -147,7 +147,9 @@ func (t *Transcoder) registerRules(rules []*annotations.HttpRule) error {
 		if selector == "" {
 			return errors.New("rule missing selector")
 		}
+		var isPrefix bool
 		if i := strings.Index(selector, "*"); i >= 0 {
+			isPrefix = true
 			if i != len(selector)-1 {
 				return fmt.Errorf("wildcard selector %q must be at the end", rule.GetSelector())
 			}
@@ -158,7 +160,11 @@ func (t *Transcoder) registerRules(rules []*annotations.HttpRule) error {
 		}
 		for _, methodConf := range t.methods {
 			methodName := string(methodConf.descriptor.FullName())
-			if !strings.HasPrefix(methodName, selector) {
+			if isPrefix {
+				if !strings.HasPrefix(methodName, selector) {
+					continue
+				}
+			} else if methodName != selector {
 				continue
 			}
 			methodRules[methodConf] = append(methodRules[methodConf], rule)
